@@ -37,6 +37,8 @@ type Script struct {
 	// Compress: the server compresses Data/Totals/Extremes blocks when the query enabled compression.
 }
 
+var errRetry = errors.New("retry")
+
 // ScriptServer is the synchronous server state machine.
 type ScriptServer struct {
 	S       *Script
@@ -52,6 +54,9 @@ type ScriptServer struct {
 	nData   int
 	Hello   ref.ServerHello
 	inQuery bool
+	// Aborted: the script sent an exception for the current query; reactions are suppressed and
+	// a new request is accepted at the next packet boundary.
+	Aborted bool
 	// InputExpected: after OnQuery, the script expects input blocks (INSERT); otherwise the query
 	// is complete after the external-data terminator.
 	InputExpected func(q *ref.Query) bool
@@ -88,6 +93,9 @@ func (s *ScriptServer) Feed(p []byte) []Item {
 	var out []Item
 	for s.Err == nil {
 		items, n, err := s.step(s.buf)
+		if err == errRetry {
+			continue
+		}
 		if errors.Is(err, ref.ErrShort) {
 			break
 		}
@@ -189,6 +197,12 @@ func (s *ScriptServer) step(b []byte) ([]Item, int, error) {
 		if err != nil {
 			return nil, 0, err
 		}
+		if s.Aborted && (code == ref.ClientPingCode || code == ref.ClientQueryCode) {
+			// the server failed the query: the next request may start at any packet boundary
+			s.state = 2
+			s.Aborted = false
+			return nil, 0, errRetry
+		}
 		if code == ref.ClientCancelCode {
 			s.Packets = append(s.Packets, ClientPacket{Kind: "cancel", Start: start, End: start + r.P})
 			s.state = 2
@@ -239,7 +253,7 @@ func (s *ScriptServer) step(b []byte) ([]Item, int, error) {
 		if s.state == 3 {
 			if empty {
 				// end of external data: the query starts executing
-				if s.S.OnQuery != nil {
+				if s.S.OnQuery != nil && !s.Aborted {
 					items = s.S.OnQuery(s.curQuery)
 				}
 				if s.InputExpected != nil && s.InputExpected(s.curQuery) {
@@ -251,13 +265,13 @@ func (s *ScriptServer) step(b []byte) ([]Item, int, error) {
 			return items, r.P, nil
 		}
 		if empty {
-			if s.S.OnDataEnd != nil {
+			if s.S.OnDataEnd != nil && !s.Aborted {
 				items = s.S.OnDataEnd()
 			}
 			s.state = 2
 			return items, r.P, nil
 		}
-		if s.S.OnData != nil {
+		if s.S.OnData != nil && !s.Aborted {
 			items = s.S.OnData(s.nData, blk)
 		}
 		s.nData++
